@@ -212,6 +212,7 @@ func init() {
 		}},
 	}
 	templates = append(templates, extraTemplates()...)
+	templates = append(templates, plainTemplates()...)
 }
 
 func (g *Gen) msgSize() int64 {
@@ -232,6 +233,9 @@ func fallible(name string) bool {
 	case "NetRemoveAllBuses", "BusRemoveAllNodeInterfaces", "NodeAddInterface", "IfRemoveAllSent", "IfRemoveAllReceived",
 		"EnumRemoveAllValues", "NewNetwork", "NewBus", "NewNode", "NewMessage", "NewEnum", "NewEnumValue":
 		return false
+	}
+	if isPlain(name) {
+		return name == "BuilderUpdateName" || name == "BuilderInsertOperation" || name == "BuilderRemoveOperation"
 	}
 	return !infallibleExtra(name)
 }
